@@ -35,10 +35,20 @@ func checkC09(c *Ctx) {
 	stopped := m.StateConsts["StateStopped"]
 
 	// ---- R0 -----------------------------------------------------------------------
-	if len(m.StopUnits) < 2 {
-		c.undecided("R0", "instance-floor", nil, "%d stop units found (functions clearing the claim and calling the cancel field); 2 on the reference tree", len(m.StopUnits))
-	}
+	nAPI := 0
 	for _, su := range m.StopUnits {
+		if su.Object() != nil && su.Object().Exported() {
+			nAPI++
+		}
+	}
+	if nAPI < 2 || len(m.StopCores) < 1 {
+		c.undecided("R0", "instance-floor", nil, "%d exported stop methods / %d stop cores found (functions clearing the claim and calling the cancel field); 2 exported methods on the reference tree", nAPI, len(m.StopCores))
+	}
+	isAPI := func(f *ssa.Function) bool { return f.Object() != nil && f.Object().Exported() }
+	for _, su := range m.StopUnits {
+		if !containsFn(m.StopCores, su) {
+			continue
+		}
 		var clear, stop, cancel, unlock ssa.Instruction
 		eachInstr(su, func(in ssa.Instruction) {
 			if val, isConst, ok := m.claimStore(in); ok && isConst && !val && clear == nil {
@@ -65,6 +75,12 @@ func checkC09(c *Ctx) {
 		held := okAll && la.MustBefore(clear)[m.implMuW()] && la.MustBefore(stop)[m.implMuW()] && la.MustBefore(cancel)[m.implMuW()]
 		c.check(okAll && held, "R0", "stop unit "+fn+": clear, STOPPED and cancel under one write-lock hold", firstInstr(su),
 			"claim cleared: %v, STOPPED stored: %v, cancel called: %v, all under %s: %v", clear != nil, stop != nil, cancel != nil, m.implMuW(), held)
+	}
+	for _, su := range m.StopUnits {
+		if !isAPI(su) {
+			continue
+		}
+		fn := shortFn(su)
 		// waiter started after the unlock
 		var waiter *ssa.Go
 		eachInstr(su, func(in ssa.Instruction) {
@@ -257,7 +273,7 @@ func checkC09(c *Ctx) {
 				}
 			}
 		})
-		if nSel == 0 {
+		if nSel == 0 && isAPI(su) {
 			c.viol("R3", "stop unit "+fn+" waits for background work", firstInstr(su), "no blocking select found: the stop does not wait for goroutines at all")
 		}
 	}
@@ -294,7 +310,7 @@ func checkC09(c *Ctx) {
 			s := l.S.String()
 			switch {
 			case strings.Contains(s, "DeleteKey"):
-			case m.isClaimLoadSym(l.S):
+			case m.isClaimValueSym(l.S), m.prevClaimLit(l, true):
 			case strings.Contains(s, "select "):
 			case l.S.Op == "call" && m.isLib(calleeOfSym(l.S)) && m.isOwnershipCheck(calleeOfSym(l.S)):
 			case strings.Contains(s, m.path(m.Ctx)): // the already-stopped test at entry
